@@ -9,6 +9,7 @@ R_SYS = Rule("D2", r"\*SYSTEM_SENDBUF_SIZE", "system_sendbuf_size()", "lazy_stat
 R_FIRST = Rule("B1", r"\bsend_first_fragment\(", "send_first_fragment(Tracked(&mut *k), ", "ghost kernel threaded into the sendmsg stub")
 R_FOLLOW = Rule("B2", r"\bsend_followup_fragment\(", "send_followup_fragment(Tracked(&mut *k), ", "ghost kernel threaded into the send stub")
 R_CHANNEL = Rule("B3", r"\bchannel\(\)", "channel(Tracked(&mut *k))", "ghost kernel threaded into the socketpair stub")
+R_DROP = Rule("B25", r"\bdrop\(dedicated_rx\.take\(\)\);", "drop_receiver(dedicated_rx.take(), Tracked(&mut *k));", "drop of the sender's copy of the dedicated receive end -> stub that updates the ghost set of held receive ends")
 R_CELLGET = Rule("D8", r"\b([A-Za-z_][A-Za-z0-9_]*)\.fd\.get\(\)", r"\1.fd.get()", "Cell::get kept verbatim (spec: uninterpreted cell_val)")
 
 fragment_size = Fn(F, [IMPL, "fragment_size"], ret="r",
@@ -50,6 +51,8 @@ INV_COMMON = [
            "&& k0.peer.dom().contains(self.fd.0) && k0.q.dom().contains(mrx) && mrx == k0.peer[self.fd.0]\n"
            "&& k.peer == k1.peer && k.sock == k1.sock"),
     Clause("unix.send/loop2.invariant.log", "failures_recoverable(k0.log, k.log)", ["C09", "C13"]),
+    Clause("unix.send/loop2.invariant.own_copy_of_dedicated_receiver_closed_after_first_fragment",
+           "(byte_position > 0 ==> !k.own_rx.contains(ded)) && (dedicated_rx matches Some(x) ==> cell_val(&x.fd) == ded) && (byte_position == 0 ==> dedicated_rx is Some)", ["C09"]),
     Clause("unix.send/loop2.invariant.nothing_sent_yet",
            "byte_position == 0 ==> k.q == k1.q && spec_first(sendbuf_size as nat) < data.len()", ["C13", "C01", "C18"]),
     Clause("unix.send/loop2.invariant.sent_prefix",
@@ -77,7 +80,7 @@ send = Fn(F, [IMPL, "send"], ret="r", extra_params="Tracked(k): Tracked<&mut K>"
                "r is Ok ==> send_ok_post(*old(k), *final(k), self.fd.0, data@, chan_fds(channels@) + region_fds(shared_memory_regions@))",
                ["C01", "C02", "C04", "C13", "C15"]),
         Clause("unix.send/ensures.err_at_most_one_packet",
-               "r is Err ==> send_err_post(*old(k), *final(k), self.fd.0, data@)", ["C02", "C09", "C13"]),
+               "r is Err ==> send_err_post(*old(k), *final(k), self.fd.0, data@)", ["C02", "C09", "C12", "C13"]),
         Clause("unix.send/ensures.failure_not_swallowed",
                "r is Ok ==> failures_recoverable(old(k).log, final(k).log)", ["C09", "C13"]),
         Clause("unix.send/ensures.too_many_attachments_refused",
@@ -101,7 +104,7 @@ send = Fn(F, [IMPL, "send"], ret="r", extra_params="Tracked(k): Tracked<&mut K>"
              "    assert(fds@.subrange(0, fds@.len() as int) == fds@);\n"
              "}", "unix.send/ensures.ok_exact_message_once"),
         Hint("loop:2:before",
-             "let ghost ded = cell_val(&dedicated_rx.fd);\n"
+             "let ghost ded = fds@.last();\n"
              "let ghost k1 = *k;", "unix.send/loop2.invariant.kernel_frame"),
         Hint("loop:2:start",
              "let ghost kb = *k;\nlet ghost bp0 = byte_position;\nlet ghost sb0 = sendbuf_size;\n"
@@ -132,7 +135,7 @@ send = Fn(F, [IMPL, "send"], ret="r", extra_params="Tracked(k): Tracked<&mut K>"
         Hint("loop:2:after",
              "proof { assert(data@.subrange(0, data@.len() as int) == data@); }", "unix.send/ensures.ok_exact_message_once"),
     ],
-    rules=[R_SYS, R_FIRST, R_FOLLOW, R_CHANNEL],
+    rules=[R_SYS, R_FIRST, R_FOLLOW, R_CHANNEL, R_DROP],
     nested={"send_first_fragment": DROP, "send_followup_fragment": DROP, "downsize": downsize},
     attrs="#[verifier::loop_isolation(false)]",
     safety_props=["C18"], termination_props=["C09", "C13"])
@@ -141,17 +144,19 @@ UNIT = Unit(
     name="u2_send",
     prelude=["units/common.rs", "units/unix_types.rs", "units/u2_send.rs"],
     groups=[("impl OsIpcChannel", [chan_fd]), (IMPL, [fragment_size, first_fragment_size, get_max_fragment_size, send])],
-    props=["C01", "C02", "C04", "C09", "C13", "C15", "C18"],
+    props=["C01", "C02", "C04", "C09", "C12", "C13", "C15", "C18"],
     prelude_clauses={
         "unix.send_first_fragment/requires.fds_le_max": ["C15", "C18"],
         "unix.send_first_fragment/requires.fits_first_iovec": ["C13", "C01", "C18"],
         "unix.send_first_fragment/requires.kernel_wf": [],
         "unix.send_followup_fragment/requires.fits_followup_read": ["C13", "C01", "C18"],
         "unix.send_followup_fragment/requires.kernel_wf": [],
+        "unix.send_followup_fragment/requires.sender_does_not_hold_the_receive_end": ["C09"],
     },
     kernel_clauses=[
         "sendmsg/send on SOCK_SEQPACKET append exactly one whole packet to the peer's FIFO and return >0, or append nothing and fail with an arbitrary error (every ENOBUFS/EPIPE pattern)",
         "socketpair returns two descriptors not in use before and an empty queue",
         "SYSTEM_SENDBUF_SIZE is a run constant with 48 <= value <= isize::MAX",
+        "a blocked or later write to a SOCK_SEQPACKET socket fails (EPIPE) once no descriptor of its receive end is open anywhere; descriptors in flight are released when the carrying socket is closed",
     ],
 )
